@@ -165,14 +165,20 @@ theorem resolveE_skip {x : Name} {T T' : Tab} (h : AgreeBut x T T') : ∀ (e : S
     simp only [SExpr.names, List.contains_eq_mem, List.mem_cons, List.mem_append, decide_eq_false_iff_not, not_or] at hn
     simp only [resolveE, h.1 t (fun e => hn.1 e.symm), h.2, ihr (by simpa using hn.2.1), iha (by simpa using hn.2.2)]
 
-theorem resolveS_skip {x : Name} {T T' : Tab} (h : AgreeBut x T T') (s : SStmt) (hn : s.names.contains x = false) :
+theorem resolveS_skip {x : Name} {T T' : Tab} (h : AgreeBut x T T') : ∀ (s : SStmt), s.names.contains x = false →
     resolveS T' s = resolveS T s := by
-  cases s with
-  | print t e => simp only [resolveS, resolveE_skip h e hn]
-  | eval e => simp only [resolveS, resolveE_skip h e hn]
+  intro s
+  induction s with
+  | print t e => intro hn; simp only [resolveS, resolveE_skip h e hn]
+  | eval e => intro hn; simp only [resolveS, resolveE_skip h e hn]
   | set y e =>
+    intro hn
     simp only [SStmt.names, List.contains_eq_mem, List.mem_cons, decide_eq_false_iff_not, not_or] at hn
     simp only [resolveS, h.1 y (fun e => hn.1 e.symm), resolveE_skip h e (by simpa using hn.2)]
+  | lit s ih =>
+    intro hn
+    simp only [resolveS]
+    exact ih hn
 
 theorem resolveSs_skip {x : Name} {T T' : Tab} (h : AgreeBut x T T') : ∀ (ss : List SStmt),
     (ss.flatMap SStmt.names).contains x = false → resolveSs T' ss = resolveSs T ss := by
